@@ -74,6 +74,7 @@ class Ctx(object):
     self.timeout = solver_timeout_ms
     self.assumed_contracts = set()     # names of Models actually used on this path
     self.feas_checks = 0
+    self.covers = []                   # (name, assumptions): points that must be reachable
     self._qf_flags = []
 
   def const(self, name, sort):
@@ -401,6 +402,16 @@ class Interp(object):
         self.unsupported("operator %s" % type(op).__name__, node)
       except Exception as e:       # native Python semantics, including its exceptions
         self.raise_(type(e), *e.args, node=node)
+    if isinstance(op, ast.Mult) and isinstance(a, list) and len(a) == 1 and isinstance(b, SInt):
+      # [x] * n : n copies of x (empty when n <= 0)
+      sh = shape_of(a[0])
+      if sh is None: self.unsupported("[x] * n with x of unknown shape", node)
+      res = self.ctx.fresh(V.Seq(sh), "rep")
+      i = z3.Int("rp?%d" % self._qid())
+      self.ctx.assume(res.length == z3.If(b.t > 0, b.t, 0))
+      self.ctx.assume(z3.ForAll([i], z3.Implies(z3.And(i >= 0, i < res.length),
+                                                self._bt(self.eq(res.at(i), a[0])))))
+      return res
     if isinstance(op, ast.Mod) and isinstance(a, str):
       # "format" % values: only the fact that it is a str matters in the subset (messages)
       return SOpq(self.ctx.const("fmt", V.opaque_sort("StrMsg")), "StrMsg")
@@ -801,14 +812,15 @@ class Interp(object):
       fr.bind_args(fv.node.args, args, kwargs, self, node)
       if isinstance(fv.node, ast.Lambda):
         return self.ev(fv.node.body, fr)
-      if _is_generator(fv.node):
-        fr.yielded = []
+      gen = _is_generator(fv.node)
+      if gen:
+        fr.env["__yielded__"] = []
       try:
         self.exec_block(fv.node.body, fr)
       except _Return as r:
-        if fr.yielded is not None: return fr.yielded
+        if gen: return fr.env["__yielded__"]
         return r.value
-      if fr.yielded is not None: return fr.yielded
+      if gen: return fr.env["__yielded__"]
       return None
     finally:
       self.depth -= 1
@@ -1010,9 +1022,13 @@ class Interp(object):
     self.ev(node.value, fr)
 
   def do_yield(self, v, fr):
-    if fr.yielded is None: self.unsupported("yield outside generator")
-    if isinstance(fr.yielded, SSeq): fr.yielded = fr.yielded.append(v)
-    else: fr.yielded.append(v)
+    """The values a generator yields are collected in the ghost sequence `__yielded__`."""
+    f = fr
+    while f is not None and "__yielded__" not in f.env: f = f.parent
+    if f is None: self.unsupported("yield outside generator")
+    cur = f.env["__yielded__"]
+    if isinstance(cur, SSeq): f.env["__yielded__"] = cur.append(v)
+    else: cur.append(v)
 
   def st_Return(self, node, fr):
     raise _Return(self.ev(node.value, fr) if node.value is not None else None)
@@ -1245,6 +1261,11 @@ class Interp(object):
       else:
         assume_invs()
         if not self.force(self.ev(node.test, fr), True): raise PathEnd()
+      ctx.covers.append(("%s.iteration" % lname, list(ctx.assumptions)))
+      variant0 = None
+      if spec.decreases:
+        variant0 = self.eval_term(spec.decreases, fr)
+        ctx.oblige("%s.decreases_bounded" % lname, variant0 >= 0, "termination", node.lineno)
       if spec.ghost_pre:
         self.exec_ghost(spec.ghost_pre, fr)
       try:
@@ -1259,8 +1280,9 @@ class Interp(object):
       for iname, clause in spec.invariants.items():
         g = self.eval_spec(clause, fr.flat_env(), old_env=self.old_env)
         ctx.oblige("%s.%s" % (lname, iname), self._bt(g), "inv-preserved", node.lineno)
-      if spec.decreases and it is None:
-        pass
+      if variant0 is not None:
+        ctx.oblige("%s.decreases_strictly" % lname, self.eval_term(spec.decreases, fr) < variant0,
+                   "termination", node.lineno)
       raise PathEnd()
     else:                # ---- exit
       if it is not None:
@@ -1270,6 +1292,14 @@ class Interp(object):
         assume_invs()
         if not self.force(self.ev(node.test, fr), False): raise PathEnd()
       self.exec_block(node.orelse, fr)
+
+  def eval_term(self, text, fr):
+    old = self.spec; self.spec = True
+    try:
+      f2 = Frame(None, self); f2.env = fr.flat_env(); f2.spec_names = True
+      return self.int_term(self.ev(ast.parse(text.strip(), mode="eval").body, f2))
+    finally:
+      self.spec = old
 
   def force(self, v, want):
     """Assume truth(v) == want; returns False when that is impossible."""
